@@ -53,24 +53,29 @@ def harness_sources():
     d = os.path.join(VERIF, 'harness')
     return [os.path.join(d, f) for f in os.listdir(d)] + [os.path.join(VERIF, 'bin/slice_flow.py'), os.path.join(VERIF, 'bin/genfacts.py'), os.path.join(VERIF, 'bin/symfacts.py')]
 
-def build_facts():
-    """probe -> facts -> coq/gen/Extracted.v (rewritten only when changed)"""
+def build_facts(sym_only_ok=False):
+    """symbol facts -> coq/gen/Symbols.v; probe -> facts -> coq/gen/Extracted.v (rewritten only when changed).
+    sym_only_ok: a property decided on the symbol facts alone (C20) goes on when the probe does not link"""
     dig = file_hash(repo_sources() + harness_sources())
     ext = os.path.join(COQ, 'gen/Extracted.v')
     sym = os.path.join(COQ, 'gen/Symbols.v')
     if stamp_ok('facts', dig) and os.path.exists(ext) and os.path.exists(sym):
         return
+    if not (stamp_ok('symfacts', dig) and os.path.exists(sym)):
+        rc, out3 = sh([sys.executable, os.path.join(VERIF, 'bin/symfacts.py'), REPO, BUILD, sym], timeout=600)
+        if rc != 0: raise BuildError('symfacts failed', out3)
+        stamp_set('symfacts', dig)
     inc = os.path.join(REPO, 'lltdResponder')
     rc, out = sh(['gcc', '-w', '-I' + inc, '-o', os.path.join(BUILD, 'probe'), os.path.join(VERIF, 'harness/probe.c')]
                  + [os.path.join(inc, f) for f in CORE if f != 'lltdBlock.c'])
-    if rc != 0: raise BuildError('fact probe does not compile against the working tree', out)
+    if rc != 0:
+        if sym_only_ok and os.path.exists(ext): return
+        raise BuildError('fact probe does not compile against the working tree', out)
     rc, out = sh([os.path.join(BUILD, 'probe')], timeout=60)
     if rc != 0: raise BuildError('fact probe failed', out)
     open(os.path.join(BUILD, 'facts.txt'), 'w').write(out)
     rc, out2 = sh([sys.executable, os.path.join(VERIF, 'bin/genfacts.py'), os.path.join(BUILD, 'facts.txt'), ext])
     if rc != 0: raise BuildError('genfacts failed', out2)
-    rc, out3 = sh([sys.executable, os.path.join(VERIF, 'bin/symfacts.py'), REPO, BUILD, sym], timeout=600)
-    if rc != 0: raise BuildError('symfacts failed', out3)
     stamp_set('facts', dig)
 
 def facts():
